@@ -94,23 +94,63 @@ theorem refLen_eq (str : List Nat) (s : Nat) : ∀ (fuel t : Nat),
 
 /-! ## the main loop -/
 
+/-- Is the byte before position `s` the start of the string or a path delimiter? -/
+def prevDelimAt (str : List Nat) (s : Nat) : Bool := s == 0 || isPathDelim (at' str (s - 1))
+
+theorem prevDelimAt_iff (str : List Nat) (s : Nat) :
+    (s = 0 ∨ isPathDelim (at' str (s - 1)) = true) ↔ prevDelimAt str s = true := by
+  simp [prevDelimAt]
+
+theorem prevDelimAt_succ (str : List Nat) (s : Nat) : prevDelimAt str (s + 1) = isPathDelim (at' str s) := by
+  simp [prevDelimAt]
+
+theorem isPathDelim_of_isVarChar {c : Nat} (h : isVarChar c = true) : isPathDelim c = false := by
+  simp only [isVarChar, Bool.or_eq_true, Bool.and_eq_true, decide_eq_true_eq, beq_iff_eq] at h
+  simp only [isPathDelim, Bool.or_eq_false_iff, beq_eq_false_iff_ne]
+  omega
+
+theorem takeWhile_getD (p : Nat → Bool) (l : List Nat) (i : Nat) (h : i < (l.takeWhile p).length) :
+    p (l.getD i 0) = true := by
+  induction l generalizing i with
+  | nil => simp at h
+  | cons x xs ih =>
+    by_cases hx : p x = true
+    · simp only [List.takeWhile, hx, List.length_cons] at h
+      cases i with
+      | zero => simpa using hx
+      | succ n => simpa using ih n (by omega)
+    · have hx' : p x = false := by simpa using hx
+      simp [List.takeWhile, hx'] at h
+
+theorem at'_of_drop_eq_cons {str : List Nat} {s c : Nat} {rest : List Nat}
+    (hd : str.drop s = c :: rest) (j : Nat) : at' str (s + 1 + j) = rest.getD j 0 := by
+  have h1 : str.drop (s + 1) = rest := drop_succ_of_drop_eq_cons hd
+  rw [at'_eq_headD, ← List.drop_drop, h1]
+  induction rest generalizing j with
+  | nil => simp
+  | cons y ys _ =>
+    cases j with
+    | zero => simp
+    | succ n => simp [List.getD_eq_getElem?_getD, List.head?_drop, List.headD_eq_head?_getD]
+
 theorem loop_eq (env : List (List Nat)) (str : List Nat) (h0 : 0 ∉ str) :
     ∀ (fuel s start : Nat) (out : List Nat), start ≤ s → s ≤ str.length → str.length - s < fuel →
     loop env str fuel s start out
-      = some (out ++ (str.drop start).take (s - start) ++ spec env (str.drop s)) := by
+      = some (out ++ (str.drop start).take (s - start) ++ specFrom env (prevDelimAt str s) (str.drop s)) := by
   intro fuel
   induction fuel with
   | zero => intro s start out _ _ h; omega
   | succ fuel ih =>
     intro s start out hss hsl hf
     rw [loop]
-    simp only [at'_eq_headD]
+    simp only [prevDelimAt_iff]
+    rw [at'_eq_headD str s, at'_eq_headD str (s + 1)]
     cases hd : str.drop s with
     | nil =>
       have hlen : str.length ≤ s := by simpa using hd
       have : (str.drop start).take (s - start) = str.drop start :=
         List.take_of_length_le (by simp; omega)
-      simp [this, spec]
+      simp [this, specFrom]
     | cons c rest =>
       have hr : str.drop (s + 1) = rest := drop_succ_of_drop_eq_cons hd
       have hlen : str.length - s = rest.length + 1 := by
@@ -120,26 +160,40 @@ theorem loop_eq (env : List (List Nat)) (str : List Nat) (h0 : 0 ∉ str) :
         apply h0
         have : c ∈ str.drop s := by rw [hd]; simp
         exact hc ▸ List.mem_of_mem_drop this
+      have hatc : at' str s = c := by rw [at'_eq_headD, hd]; rfl
       simp only [List.headD_cons, hc0, if_false, hr]
-      rw [spec]
+      rw [specFrom]
       by_cases h1 : c = 36 ∧ isVarChar (rest.headD 0) = true
       · simp only [h1, and_self, if_true]
         have hle := length_takeWhile_le' isVarChar rest
         have ht : refLen str s 1 str.length = 1 + (rest.takeWhile isVarChar).length := by
           have := refLen_eq str s str.length 1 (by rw [hr]; omega)
           rw [this, hr]
-        rw [ht, ih _ _ _ (Nat.le_refl _) (by omega) (by omega)]
+        -- the name is not empty, and its last character is not a delimiter
+        have hk : 0 < (rest.takeWhile isVarChar).length := by
+          cases rest with
+          | nil => simp [isVarChar_zero] at h1
+          | cons y ys =>
+            have : isVarChar y = true := by simpa using h1.2
+            simp [List.takeWhile, this]
+        have hprev : prevDelimAt str (s + (1 + (rest.takeWhile isVarChar).length)) = false := by
+          have e : s + (1 + (rest.takeWhile isVarChar).length)
+              = (s + 1 + ((rest.takeWhile isVarChar).length - 1)) + 1 := by omega
+          rw [e, prevDelimAt_succ, at'_of_drop_eq_cons hd]
+          exact isPathDelim_of_isVarChar (takeWhile_getD _ _ _ (by omega))
+        rw [ht, ih _ _ _ (Nat.le_refl _) (by omega) (by omega), hprev]
         rw [drop_add_of_drop_eq_cons hd, drop_length_takeWhile]
         have h36 : c = 36 := h1.1
         subst h36
         simp [Nat.add_comm 1, take_length_takeWhile]
       · simp only [h1, if_false]
-        by_cases h2 : c = 126 ∧ isPathDelim (rest.headD 0) = true
+        by_cases h2 : c = 126 ∧ isPathDelim (rest.headD 0) = true ∧ prevDelimAt str s = true
         · simp only [h2, and_self, if_true]
-          rw [ih _ _ _ (Nat.le_refl _) (by omega) (by omega), hr]
-          simp
+          rw [ih _ _ _ (Nat.le_refl _) (by omega) (by omega), hr, prevDelimAt_succ, hatc]
+          have : isPathDelim c = false := by rw [h2.1]; decide
+          simp [this]
         · simp only [h2, if_false]
-          rw [ih _ _ _ (by omega) (by omega) (by omega), hr]
+          rw [ih _ _ _ (by omega) (by omega) (by omega), hr, prevDelimAt_succ, hatc]
           have : (str.drop start).take (s + 1 - start)
               = (str.drop start).take (s - start) ++ [c] := by
             have e : s + 1 - start = (s - start) + 1 := by omega
